@@ -406,7 +406,7 @@ def search_arange(ctx, n, viol):
             k, dk = g.modes[0], g._delta_k[0]
         else:
             g = Fourier(mk_model(0, 2, [a]), period=[7.0, L], mode_no=[2, mn], seed=1)
-            k, dk = g.modes[1].reshape(2, -1)[0], g._delta_k[1]
+            k, dk = g.modes[1][: int(g.mode_no[1])], g._delta_k[1]     # C order: the last axis varies fastest
         ev += 1
         case = dict(period=L, anis=a, mode_no=mn, got=[int(v) for v in g.mode_no])
         if int(g.mode_no[-1]) != mn or len(k) != mn:
@@ -528,10 +528,17 @@ def search_isclose(ctx, viol):
 def search(ctx, deep=False):
     f = 3 if deep else 1
     viol = []
-    ev1, worst = search_periodic(ctx, ctx.scale(120, 2500) * f, viol)
-    ev2 = search_arange(ctx, ctx.scale(1500, 40000) * f, viol)
-    ev3 = search_histories(ctx, ctx.scale(100, 2500) * f, viol)
-    ev4 = search_isclose(ctx, viol)
+    def guarded(name, fn, default):
+        # an exception of the real API on these valid inputs is itself a finding, not a machinery error
+        try:
+            return fn()
+        except Exception as ex:     # noqa: BLE001
+            viol.append({"key": f"fourier:search-exception:{name}", "what": f"{type(ex).__name__}: {ex}", "case": {}})
+            return default
+    ev1, worst = guarded("periodic", lambda: search_periodic(ctx, ctx.scale(120, 2500) * f, viol), (0, float("nan")))
+    ev2 = guarded("arange", lambda: search_arange(ctx, ctx.scale(1500, 40000) * f, viol), 0)
+    ev3 = guarded("histories", lambda: search_histories(ctx, ctx.scale(100, 2500) * f, viol), 0)
+    ev4 = guarded("isclose", lambda: search_isclose(ctx, viol), 0)
     # one representative per key
     seen, out = set(), []
     for v in viol:
